@@ -97,6 +97,15 @@ type KInj struct {
 	V []Inj  `json:"v"`
 }
 
+// Alt is one alternative rendering of a run.
+type Alt struct {
+	Name    string `json:"name"`
+	Clause  string `json:"clause"` // the Contract clause this alternative serves (echoed to the trace validator)
+	Channel []KV   `json:"channel"`
+	Perm    int    `json:"perm"` // 0 = canonical order of YAML / CLI entries, else seed of a permutation
+	Msgs    []Msg  `json:"msgs"` // empty = the run's own messages
+}
+
 // Cfg is the abstract configuration.
 type Cfg struct {
 	Types         []string `json:"types"`
@@ -120,6 +129,9 @@ type Cfg struct {
 	// Channel says, per two-channel option name, how it is delivered:
 	// "" or "yaml" (YAML only), "cli", "both" (CLI value + contradicting YAML value).
 	Channel []KV `json:"channel"`
+	// Alts are alternative renderings of the SAME run (same request paths): other channel assignments (C16),
+	// permuted entry orders or plain repetitions (C14), permuted declaration orders (C15, Msgs non-empty).
+	Alts []Alt `json:"alts"`
 	// Raw overrides for C16 failure cases: "" | noconfig | missingfile | malformed | notypes
 	Fault string `json:"fault"`
 }
